@@ -573,6 +573,7 @@ class ProgGen:
         fams["ctlist"] = ch.draw(4, "fam_ctlist") == 0
         fams["gstruct"] = ch.draw(4, "fam_gstruct") == 0
         fams["affine"] = ch.draw(4, "fam_affine") == 0
+        fams["custext"] = ch.draw(5, "fam_custext") == 0
         if fams["qhelpers"]:
             self.qhelpers = True
             src += ["@guppy", f"def {prefix}qgate(q: qubit) -> None:", "    h(q)", "    x(q)", "",
@@ -656,6 +657,16 @@ class ProgGen:
                     "        acc += 1", "    return acc", ""]
             defs += [f"{prefix}opt", f"{prefix}eith", f"{prefix}sums"]
             sigs.append(FnSig(f"{prefix}sums", [("x", "int"), ("c", "bool")], "int", "sumtypes"))
+        if fams["custext"]:
+            # a user-defined hugr extension with one op, exposed through @hugr_op
+            src += [f"{prefix}XEXT = _he.Extension(\"demo.ext{ch.draw(3, 'ext_n')}\", _he.Version(0, 1, 0))",
+                    f"{prefix}XFROB = {prefix}XEXT.add_op_def(_he.OpDef(\"frob\", signature=_he.OpDefSig("
+                    "_ht.FunctionType([_int_t(6)], [_int_t(6)])), description=\"demo op\"))", "",
+                    f"@hugr_op(lambda ty, inst, ctx: _hops.ExtOp({prefix}XFROB, ty, []))",
+                    f"def {prefix}frob(x: int) -> int: ...", "",
+                    "@guppy", f"def {prefix}uses_ext(x: int) -> int:", f"    return {prefix}frob(x) + 1", ""]
+            defs += [f"{prefix}uses_ext"]
+            sigs.append(FnSig(f"{prefix}uses_ext", [("x", "int")], "int", "custext"))
         if fams["affine"]:
             # generic functions over an affine and over a copyable type variable whose
             # dangling values have types that render alike (Option[$0], Either[$0, int])
